@@ -159,6 +159,9 @@ def t12_case(desc):
     return st.fixed_dictionaries({
         "tag": desc, "old": tc.len_spec(False), "old_seed": byte,
         "pokes": pokes(),
+        # the stored message fills the data area and the length field of its
+        # TLV claims this many octets more
+        "len_bump": st.sampled_from([0, 0, 0, 0] + list(range(1, 17))),
         "random_image": st.one_of(st.none(), st.none(), st.none(),
                                   st.binary(min_size=16, max_size=160)),
         "phys_cut": st.sampled_from([0, 0, 0, 8, 16, 64])})
@@ -166,13 +169,22 @@ def t12_case(desc):
 
 def run_t12(case, ctx):
     desc = case["tag"]
-    b = tc.build(desc, case["old"], case["old_seed"])
+    bump = case.get("len_bump", 0)
+    b = tc.build(desc, ["cap", 0] if bump else case["old"], case["old_seed"])
     if b is None:
         ctx.label("layout-without-room")
         return
     kind = desc["kind"]
     mem = b.tag.mem
     i = b.info
+    if bump:
+        n, av = len(b.old), i["avail"]
+        if n + bump < 255 and len(av) >= 2:
+            mem[av[1]] = n + bump
+            ctx.label("length-field-overshoots")
+        elif n >= 255 and len(av) >= 4:
+            mem[av[2]], mem[av[3]] = (n + bump) >> 8, (n + bump) & 255
+            ctx.label("length-field-overshoots")
     if case["random_image"] is not None:
         img = case["random_image"]
         start = 12 if kind == "t2t" else 8
